@@ -39,7 +39,24 @@ def main() -> None:
             mod.main()
     except SystemExit:
         raise
-    except Exception:  # harness crash: exit 2, never 1
+    except Exception as ex:  # noqa: BLE001
+        # Safety net.  Every input the checks feed to the code is one the property quantifies over, and the places
+        # where the code is EXPECTED to raise are wrapped by the checks themselves.  An exception that escapes and was
+        # raised INSIDE the code under test (innermost frame under <repo>/src) is therefore the code failing on a valid
+        # input: it is reported as a failing input (with the traceback as the replay), not as a crash of the harness.
+        # Anything else — an exception raised in the harness, in Lean's driver, in a library — is a harness crash:
+        # exit 2, never 1.
+        tb = traceback.extract_tb(ex.__traceback__)
+        src = os.path.realpath(str(common.REPO / "src")) + os.sep
+        in_code = bool(tb) and os.path.realpath(tb[-1].filename).startswith(src)
+        chk = common.Check.current
+        if in_code and chk is not None:
+            harness_frames = [f"{Path(f.filename).name}:{f.lineno} {f.name}" for f in tb
+                              if os.path.realpath(f.filename).startswith(str(Path(__file__).resolve().parent))]
+            chk.fail("the code raised on an input of the check (not an exception the check expects)",
+                     dict(error=repr(ex), raised_at=f"{tb[-1].filename}:{tb[-1].lineno} {tb[-1].name}",
+                          reached_from=harness_frames[-3:], traceback=traceback.format_exc()[-3000:]))
+            chk.finish()
         traceback.print_exc()
         sys.exit(2)
 
